@@ -657,6 +657,7 @@ fill_yly_eastr(
 	     (offs = bi383_next(&easteri, s), easteri);) {
 		/* easter offset calendar */
 		unsigned int yd;
+		unsigned int which;
 		struct md_s md;
 
 		if (wd_mask >> 1U) {
@@ -670,17 +671,30 @@ fill_yly_eastr(
 		}
 		if (!(yd = easter_get_yday(y))) {
 			continue;
-		} else if (!(yd += offs) || yd > 366) {
-			/* huh? */
-			continue;
-		} else if (!(md = yd_to_md(y, yd)).m) {
+		}
+		/* the offset may lead into the previous or next year,
+		 * they go to the candidate sets CAND[1U] and CAND[2U] */
+		with (int ydo = (int)yd + offs, nyd = 365 + !(y % 4U)) {
+			if (ydo <= 0) {
+				ydo += 365 + !((y - 1U) % 4U);
+				md = yd_to_md(y - 1U, ydo);
+				which = 1U;
+			} else if (ydo > nyd) {
+				md = yd_to_md(y + 1U, ydo - nyd);
+				which = 2U;
+			} else {
+				md = yd_to_md(y, ydo);
+				which = 0U;
+			}
+		}
+		if (!md.m) {
 			continue;
 		} else if (!md_match_p(md, m, d)) {
 			/* can't use this one, user wants it masked */
 			continue;
 		}
 		/* otherwise it's looking good */
-		ass_bi383(cand, pack_cand(md.m, md.d));
+		ass_bi383(cand + which, pack_cand(md.m, md.d));
 	}
 	return;
 }
@@ -849,12 +863,15 @@ shift(bitint383_t cand[static 3U], const unsigned int y, echs_shift_t sh)
 		bitint383_t res[3U] = {0U};
 		int c;
 
-		/* go through candidates and shift */
-		for (bitint_iter_t ci = 0UL; (c = bi383_next(&ci, cand), ci);) {
+		/* go through candidates and shift, BYEASTER may have put
+		 * some into the previous or next year already */
+		for (int iy = -1; iy <= 1; iy++)
+		for (bitint_iter_t ci = 0UL;
+		     (c = bi383_next(&ci, &cand[(iy != 0) << (iy > 0)]), ci);) {
 			const struct md_s md = unpack_cand(c);
 			int nu_d = md.d + d;
 			int nu_m = md.m;
-			unsigned int nu_y = y;
+			unsigned int nu_y = y + iy;
 
 		reassess:
 			if (UNLIKELY(nu_d <= 0)) {
@@ -1037,6 +1054,16 @@ rrul_fill_yly(echs_instant_t *restrict tgt, size_t nti, rrulsp_t rr)
 
 	y -= echs_shift_dvalue(rr->shift) > 0 ||
 		echs_shift_bday_p(rr->shift) && !echs_shift_neg_p(rr->shift);
+	with (int tmp) {
+		/* easter offsets beyond new year belong to the year before */
+		for (bitint_iter_t ei = 0UL;
+		     (tmp = bi383_next(&ei, &rr->easter), ei);) {
+			if (tmp > 240) {
+				y--;
+				break;
+			}
+		}
+	}
 
 	/* fill up the array the hard way */
 	for (res = 0UL, tries = 64U;
